@@ -294,7 +294,15 @@ def run_predict(req):
             return r[0][pos], r[1][pos]
         return r[pos], None
 
-    if cfg["prop"] == "C09":
+    if cfg["prop"] == "C03":
+        for bi, b in enumerate(batches):
+            for pos, q in enumerate(b):
+                lab, _ = out_of(bi, pos)
+                vals = [max(st["cost"][t], T[t][n + q]) for t in range(n)]
+                mn = min(vals)
+                if lab not in [int(st["plab"][t]) for t in range(n) if vals[t] == mn]:
+                    bad.append("prediction-is-an-exhaustive-minimiser[b%d,p%d]" % (bi, pos))
+    elif cfg["prop"] == "C09":
         first = {}
         for bi, b in enumerate(batches):
             for pos, q in enumerate(b):
